@@ -55,6 +55,22 @@ CHECKS = {
          "Exploration: decorator strings drawn from ASCII / 2-byte width-1 / 3-byte width-2 / empty classes; compositional prefix check by display width, every line within the width, no panic with debug assertions on, flat paragraphs equal to the AST-built expected string with affixes, TrivialDecorator emits nothing but text/whitespace/borders.",
          "Decorator family is stateless.",
          "DESIGN.md §3 C16"),
+ "C05": ("runtime grid monitor: output parsed into a character-cell grid; local junction/bar rules + row-band structure + stacked rule skeleton",
+         "Exploration with an exhaustive small scope (all tables up to 2x2 quick / 2x3 thorough over 3 content classes and all colspan tilings, widths 1..=30) plus random regular tables up to 5x6 with nested tables: equal line widths, outer rules, bars fixed within a row band, and at every rule glyph of the output glyph == f(bar above, bar below); stacked tables: full-width '─'/'/' rule skeleton. One genuine defect (ragged lines when a spanning cell covers a zero-width column) is a known finding.",
+         "Band/bar structure is checked for tables without nested tables whose columns all got a width (TableLayout hook); other tables get the local rules and equal widths.",
+         "DESIGN.md §3 C05"),
+ "C06": ("runtime grid monitor: per-cell rectangles of the parsed grid must contain exactly the cell's text; allocation facts from the TableLayout hook",
+         "Exploration on the C05 workload: column boundaries coincide in all rows and with the hooked allocation, widths + separators fit the width given and equal the line width, no column holding text of its own has width 0, and for every cell the token characters read from its rectangle equal the cell's text (containment, order and presence at once); stacked tables keep source order.",
+         "Rectangles are checked for tables without nested tables whose columns all got a width; the spanning-cell-narrower-than-colspan defect is a known finding shared with C03.",
+         "DESIGN.md §3 C06"),
+ "C09": ("runtime monitor: tag vector of every output character vs ancestor chain in the oracle DOM (lock-step alignment with the visible stream)",
+         "Exploration: every token character of rich output is aligned with the oracle DOM's visible stream (lock-step for table-free/raw, token search in side-by-side tables) and its tag vector must equal the annotations of its ancestors outermost first (colours per element, then Emphasis/Strong/Strikeout/Code/Link/Image), Preformat exactly inside <pre>; non-text pieces carry a prefix of some element chain; concat(pieces) equals the string route.",
+         "dl/dt and sup are kept out (they add annotations the property does not list); one colour/background declaration per element.",
+         "DESIGN.md §3 C09"),
+ "C14": ("runtime monitor: FragmentStart markers in tagged lines vs id-bearing elements and their first visible character in the oracle DOM",
+         "Exploration: each id (or a[name]) on an element with visible text must yield exactly one marker; in table-free documents and raw mode the number of token characters before the marker equals the index of the element's first visible character; removing ids never changes the string output. Regression inputs run first. One genuine defect (marker of a table/row with an empty first cell) is a known finding.",
+         "Positions are judged outside side-by-side tables only.",
+         "DESIGN.md §3 C14"),
 }
 
 def main():
